@@ -148,6 +148,15 @@ def biased_doc(rng, size, samebare=False):
     elif len(doc.enums) >= 2 and rng.random() < 0.5:
         doc.enums[1].schema = 'sx_' + doc.enums[1].schema
         doc.enums[1].name = doc.enums[0].name
+    if samebare == 'aliasshadow-public' and len(doc.tables) >= 2:
+        # another table's alias equals the bare name of a PUBLIC table; every table is then addressed as
+        # schema.name explicitly (bare `name.col` would be ambiguous between the table and the alias)
+        a, b = doc.tables[0], doc.tables[1]
+        a.schema = 'public'
+        if b.schema == 'public':
+            b.schema = 'shp_' + b.name
+        b.alias = a.name
+        return doc
     if samebare == 'aliasshadow' and len(doc.tables) >= 2:
         # another table's alias equals the bare name of a table in a non-public schema
         a, b = doc.tables[0], doc.tables[1]
@@ -177,11 +186,11 @@ def run_shard(spec, tier, seed, budget_s):
     with monitors.ReachMonitor() as reach:
         while k < target and not sh.out_of_time():
             k += 1
-            samebare = rng.choice([False, False, False, False, False, False, True, True, 'aliasshadow'])
+            samebare = rng.choice([False, False, False, False, False, False, True, True, 'aliasshadow', 'aliasshadow-public'])
             doc = biased_doc(rng, rng.choice(['small', 'medium', 'medium'] + (['large'] if tier == 'thorough' else [])), samebare)
             suite = samebare if isinstance(samebare, str) else ('samebare' if samebare else 'random')
             for s in range(nst):
-                text = surface.render(doc, f'{seed}-{i}-{k}-{s}')
+                text = surface.render(doc, f'{seed}-{i}-{k}-{s}', {'addr': 'explicit'} if samebare == 'aliasshadow-public' else None)
                 feats = gen.features(doc)
                 sh.case(text, nontrivial=bool(feats & {'ref', 'inline_ref', 'index', 'type_enum', 'group'}),
                         sample={'suite': suite, 'text': text[:1200]})
